@@ -16,7 +16,7 @@ from core import Result, coq_make, check_properties_file, build_driver, run_driv
     load_known, scan_forbidden, run_dir
 
 PROP = 'C08'
-COQ_FILES = ['Extract/C08.v', 'Properties/C08.v']
+COQ_FILES = ['Proofs/LedgerDefault.v', 'Extract/C08.v', 'Properties/C08.v']
 DRIVER = 'c08'
 IMPL = 'harness/impl/c08_impl.py'
 ALLOWED_AXIOMS = []
@@ -93,6 +93,23 @@ ASSUMPTIONS = [
     'transaction_import of another account\'s transaction).  There the Gallina model is NOT faithful (it keeps the '
     'key\'s group and sums a key\'s rows over all groups; the library overwrites DbKey.account_id and keeps the last '
     '(key, account) row); the theorems exclude the class through op_ok, has_cross decides it on the model state',
+    'round 3: wallets and keys WITHOUT key material (import_key(Address) / public-only imported keys in HD and single-key '
+    'wallets; single-key wallets made from an address string or a public key; an HD wallet made from the account xpub) '
+    'receive outputs and are observed like every other key, plus utxos(key_id=k) for every key holding something '
+    '(oracle clause key_listing: it sums to the key balance and lists no other key; not in the Gallina model, which has '
+    'no key kinds: utxos() there lists every unspent output with a key row); wallets whose DEFAULT ACCOUNT is not 0 '
+    '(created with account_id=N: flag a; default_account_id set and persisted: flag d), where every per-group reading '
+    'names its account, account 0 included (theorem named_account_ignores_default); spends that name account 0 in such '
+    'a wallet are filed under the default account by WalletTransaction.__init__ ("if not account_id") and fall into '
+    'the recorded class cross_account_output: generated only while that entry is recorded',
+    'round 3, reload fidelity (oracle clause fidelity, parse_raw written from the serialisation format, not from the '
+    'library): transactions made elsewhere (version 1/2/3, locktime, sequences, two outputs), imported as raw bytes / '
+    'Transaction object / dict (op ir), then stored or sent: after a reload by a second Wallet object the object '
+    'serialises to the imported bytes and carries their version / locktime / sequences / amounts, and the id in use is '
+    'the id of those bytes (or what the offline provider answered on broadcast); the same for every fully signed '
+    'transaction at the moment it was stored.  Proposed recorded class import_raw_txid_of_version1 '
+    '(fixes/C08-known-import-raw-txid.json): raw imports of version != 1 are stored without being sent only once the '
+    'entry is recorded.  Byte-level serialisation is not in the Gallina model (raw bytes are an opaque field there)',
     'accounts on the second network are always named with their account id (balance(network=n) without account_id '
     'resolves the account from the key table; not modelled); transactions_update / scan need a provider with '
     'gettransactions and are not exercised; mixed witness types in one wallet are not exercised',
@@ -110,13 +127,16 @@ RULE = ('random histories over {new_key, get_key, new_account (own and second ne
         'several outputs per txid, a payment to self, another account; spent by different transactions; then delete / '
         'store again / import / rescan / reopen in random order), several wallets in one file (same keys, cosigner, '
         'unrelated; either wallet registers the overlapping outpoints first; spends, cross imports, deletes, '
-        'reopens); one evaluation = one observation of one wallet (first reading through a second object, default '
+        'reopens), and a fourth (round 3): watched addresses / public-only keys holding outputs, wallets made from an '
+        'address / public key / account xpub, default account 1 or 2 with account 0 next to it, imports of version-2 '
+        'transactions with locktime as raw / object / dict followed by store / send / reopen; one evaluation = one observation of one wallet (first reading through a second object, default '
         'readings, then balance / utxos of every group, key balances and key groups) compared with the model; a step '
         'is non-trivial when it changed balance, unspent set, per-key balances, stored transactions or a per-group '
         'reading of that wallet; distinct by (kind, history, step)')
 
 KINDS_QUICK = ['hd'] * 5 + ['hdl', 'hdp', 'single', 'single', 'ms']
 KNOWN_CROSS = 'cross_account_output'
+KNOWN_STALE_TXID = 'import_raw_txid_of_version1'
 
 
 # ---------------------------------------------------------------- generator
@@ -332,7 +352,71 @@ def gen_wallets(rng, kind, shared_delete):
     return flags, quieten(rng, ops, 0.15)
 
 
-def gen_histories(rng, tier, cross=False, shared_delete=False):
+def gen_watch(rng, i, cross=False, stale=False):
+    """Round 3: wallet / key KINDS without key material, wallets whose DEFAULT ACCOUNT is not 0, transactions made
+    elsewhere and imported.  Returns (kind with flags, ops).  Key index -1 = the key added last."""
+    fam = i % 4
+    val = lambda: rng.choice(FUND_VALUES[1:])
+    if fam == 0:
+        # an HD / single-key wallet that also watches foreign addresses (import_key(Address)) and holds public-only
+        # imported keys; these keys receive outputs through the provider, utxo_add and utxos_update(key_id=..)
+        kind = rng.choice(['hd', 'hd', 'hdl', 'hdp', 'single'])
+        ops = ['uu'] if rng.random() < 0.5 else []
+        ops += [rng.choice(['ik:0', 'ik:0', 'ip:0']), rng.choice(['ua:-1:%d:0:0:3' % val(), 'uk:-1', 'uu'])]
+        pool = ['ik:1', 'ip:2', 'ua:-1:%d:1:%d:%d' % (val(), rng.randrange(2), rng.choice([0, 1, 5])), 'uk:-1', 'uu', 'un',
+                'st:e:%d:1:%d' % (rng.choice([100, 500, 990]), rng.randrange(2)), 'sk:-1:e:500:1:0', 'sw:e:1:0',
+                'st:o%d:300:1:0' % rng.randrange(6), 'si:%d:e:900:1' % rng.randrange(4), 'ro', 'de:%d' % rng.randrange(6),
+                'dl:0', 'ua:%d:%d:2:0:3' % (rng.randrange(6), val()), 'nk', 'ro']
+        ops += [rng.choice(pool) for _ in range(rng.randrange(4, 10))] + ['ro']
+        return kind, ops
+    if fam == 1:
+        # the whole wallet is without private keys: made from an address string, from a public key, from an account xpub
+        kind = rng.choice(['addr', 'addrl', 'singlep', 'hdw', 'addr'])
+        ops = [rng.choice(['uu', 'ua:0:%d:0:0:3' % val(), 'un'])]
+        pool = ['ua:0:%d:%d:%d:%d' % (val(), rng.randrange(3), rng.randrange(2), rng.choice([0, 1, 5])), 'uk:0', 'uu', 'un',
+                'st:e:500:1:0', 'sw:e:1:0', 'ro', 'de:%d' % rng.randrange(4), 'ik:0', 'ua:-1:%d:1:1:2' % val(), 'uk:-1'] + \
+               (['nk', 'gk', 'nk', 'uk:-1', 'st:e:300:0:0', 'ps:0'] if kind == 'hdw' else [])
+        ops += [rng.choice(pool) for _ in range(rng.randrange(3, 9))] + ['ro']
+        return kind, ops
+    if fam == 2:
+        # the default account is 1 or 2 (wallet created with account_id=N / default_account_id set and persisted);
+        # account 0 exists next to it and every call names an account, account 0 included
+        kind = rng.choice(['hd', 'hd', 'hdl', 'hdp']) + '+' + rng.choice('ad')
+        pro = ['na', 'nk:0', 'nk:1', 'uu:0', 'uu:1', 'uu']
+        if rng.random() < 0.5:
+            pro = ['na', 'na', 'nk:0', 'nk:2', 'uu:1', 'uu:0', 'uu:2']
+        if rng.random() < 0.4:
+            pro.insert(rng.randrange(2, len(pro)), 'ik:0:0')
+        body = gen_history(rng, 3, 10, multi=True)
+        named = ['st:e:%d:1:%d:%d' % (rng.choice([300, 900]), rng.randrange(2), rng.randrange(3)),
+                 'sw:e:1:0:%d' % rng.randrange(3), 'uu:0', 'un:0', 'sk:%d:e:500:1:0' % rng.randrange(8), 'ro']
+        if not cross:
+            # WalletTransaction files a transaction made for account 0 under the default account (class
+            # cross_account_output): spends that may name account 0 only once that entry is recorded
+            body = [o for o in body if not o.startswith(('st:', 'sw:', 'sk:', 'si:'))]
+            named = ['uu:0', 'un:0', 'ro', 'uu:1', 'nk:0', 'uk:%d' % rng.randrange(8)]
+        ops = pro + body + rng.sample(named, rng.randrange(2, 5)) + ['ro']
+        return kind, ops
+    # transactions made elsewhere (version 2, locktime, sequences, two outputs) imported as raw bytes / object / dict,
+    # then stored or sent, read back through a second Wallet object and after reopening
+    kind = rng.choice(['hd', 'hd', 'hdl', 'hdp', 'single', 'ms'])
+    ops = ['uu'] if rng.random() < 0.7 else ['ua:0:%d:0:0:3' % rng.choice(FUND_VALUES[3:]), 'ua:0:2500000:0:1:3']
+
+    def imp(then=None):
+        ver, form, then = rng.choice([2, 2, 2, 1, 3]), rng.choice('rrod'), then or rng.choice('0sbb')
+        if form == 'r' and ver != 1 and not stale:
+            # recorded-finding class import_raw_txid_of_version1: stored without being sent only once the entry is in
+            then = 'b'
+        return 'ir:%s:%d:%d:%d:%s:%s' % (rng.choice(['e', 'e', 'o1']), rng.choice([200, 400, 700]), ver,
+                                         rng.choice([0, 77, 500000, 1700000000]), form, then)
+    ops.append(imp(rng.choice('sb')))
+    pool = [imp(), imp(), 'bc:0', 'ps:0', 'bc:1', 'ps:1', 'ro', 'dl:0', 'de:%d' % rng.randrange(6), 'uu', 'un', 'ld:%d' % rng.randrange(6),
+            'st:e:300:1:0', 'im:0']
+    ops += [rng.choice(pool) for _ in range(rng.randrange(2, 7))] + ['ro']
+    return kind, ops
+
+
+def gen_histories(rng, tier, cross=False, shared_delete=False, stale=False):
     if tier == 'thorough':
         n, lo, hi, nd = 1000, 5, 100, 400
     else:
@@ -366,6 +450,15 @@ def gen_histories(rng, tier, cross=False, shared_delete=False):
     hs.append(('single', 'corpus15', ['ua:0:70000:0:0:3', 'nw:o', 'ua:0:5000:0:0:1', 'st:e:900:1:0', 'w:0', 'st:e:900:1:0']))
     # one wallet spends an outpoint both wallets know, then deletes its transaction again
     hs.append(('hd', 'corpus16', ['uu', 'nw:s', 'uu', 'si:0:e:500:1', 'dl:0', 'w:0', 'si:1:e:500:1', 'w:1', 'dl:0', 'ro']))
+    # keys without key material holding outputs: a watched address in an HD wallet, a wallet made from an address
+    hs.append(('hd', 'corpus17', ['uu', 'ik:0', 'ua:-1:70000:0:0:3', 'st:e:300:1:1', 'ro']))
+    hs.append(('addrl', 'corpus18', ['uu', 'ua:0:5000:0:1:3', 'ro']))
+    # default account 1, account 0 next to it, every reading names its account
+    hs.append(('hd+d', 'corpus19', ['nk:0', 'nk:1', 'uu:0', 'uu:1', 'ro', 'un:0'] + (['st:e:300:1:1:0', 'ro', 'sw:e:1:0:0'] if cross else [])))
+    hs.append(('hdl+a', 'corpus20', ['na', 'nk:0', 'uu:0', 'uu:1', 'ro'] + (['st:e:500:1:0:0'] if cross else ['uu'])))
+    # a version-2 transaction with a locktime, made elsewhere, imported as raw bytes, sent, read back
+    hs.append(('hd', 'corpus21', ['uu', 'ir:e:300:2:77:r:b', 'ro']))
+    hs.append(('hdl', 'corpus22', ['uu', 'ir:o1:400:2:0:o:s', 'bc:0', 'ro', 'ir:e:300:3:500000:d:b']))
     for i in range(n):
         kind = KINDS_QUICK[i % len(KINDS_QUICK)]
         # accounts exist for the HD kinds only (new_account needs a BIP32 master key with an account level)
@@ -376,6 +469,9 @@ def gen_histories(rng, tier, cross=False, shared_delete=False):
             ops = quieten(rng, ops, 0.35)
         if i % 5 == 3:
             flags = '+f'
+        if multi and cross and i % 8 in (2, 4):
+            # the wallet's default account is not 0 (created with account_id=N / set and persisted)
+            flags = (flags or '+') + ('a' if i % 8 == 2 else 'd')
         hs.append((kind + flags, 'h%d_%d' % (rng.getrandbits(32), i), ops))
     for i in range(nd):
         kind = KINDS_QUICK[(3 * i + 1) % len(KINDS_QUICK)]
@@ -388,6 +484,11 @@ def gen_histories(rng, tier, cross=False, shared_delete=False):
         kind = ['hd', 'ms', 'hdl', 'single', 'hdp', 'ms', 'hd'][i % 7]
         flags, ops = gen_wallets(rng, kind, shared_delete)
         hs.append((kind + ('+' + flags if flags else ''), 'w%d_%d' % (rng.getrandbits(32), i), ops))
+    for i in range(nd + nd // 4):
+        kindf, ops = gen_watch(rng, i, cross=cross, stale=stale)
+        if i % 5 == 4:
+            ops = quieten(rng, ops, 0.3)
+        hs.append((kindf, 'k%d_%d' % (rng.getrandbits(32), i), ops))
     return hs
 
 
@@ -601,6 +702,8 @@ class Oracle:
                             'holds and is listed by utxos()' % (u[0][:12], u[1])))
         if 'pa' in o:
             bad += self.per_account(o, ut, spent_now)
+        if 'ku' in o:
+            bad += self.key_listing(o)
         if 'txs2' in o:
             for a, b, what in (('bal', 'bal2', 'balance()'), ('utxos', 'utxos2', 'utxos()'), ('kb', 'kb2', 'key balances'),
                                ('txs', 'txs2', 'stored transactions')):
@@ -620,10 +723,13 @@ class Oracle:
                                 'bytes than when it was sent' % txid[:12]))
             # the reloaded OBJECT must serialise to the bytes that were sent (not only carry the stored blob)
             reser = {}
+            rfull = {}
             for tok in (o.get('reser') or '').split(','):
                 if tok:
                     p3 = tok.split('~')
                     reser[p3[0]] = p3[1]
+                    rfull[p3[0]] = p3
+            bad += self.fidelity(o, rfull)
             pushed = dict(tok.split('~') for tok in (o.get('pushed') or '').split(',') if tok)
             for txid in self.sent_view:
                 pr = pushed.get(txid)
@@ -642,6 +748,119 @@ class Oracle:
 
 def tx_key(t):
     return (t[1], t[2], t[3])
+
+
+def parse_raw(hx):
+    """Bitcoin transaction serialisation (protocol documentation / BIP144), written here and not taken from the
+    library: version (4 bytes LE) [marker 00 flag 01] inputs (prev txid LE, n, script, sequence) outputs (value,
+    script) [witness stacks] locktime.  The transaction id is the double SHA-256 of the serialisation without
+    marker, flag and witnesses, byte-reversed.  None when the bytes do not parse exactly."""
+    import hashlib
+    try:
+        b = bytes.fromhex(hx)
+        pos = [0]
+
+        def take(n):
+            if pos[0] + n > len(b):
+                raise ValueError
+            r = b[pos[0]:pos[0] + n]
+            pos[0] += n
+            return r
+
+        def varint():
+            f = take(1)[0]
+            if f < 0xfd:
+                return f
+            return int.from_bytes(take({0xfd: 2, 0xfe: 4, 0xff: 8}[f]), 'little')
+
+        version = int.from_bytes(take(4), 'little')
+        segwit = b[4] == 0 and b[5] == 1
+        if segwit:
+            take(2)
+        start = pos[0]
+        ins = []
+        for _ in range(varint()):
+            prev = take(32)[::-1].hex()
+            n = int.from_bytes(take(4), 'little')
+            take(varint())
+            ins.append((prev, n, int.from_bytes(take(4), 'little')))
+        outs = []
+        for _ in range(varint()):
+            v = int.from_bytes(take(8), 'little')
+            outs.append((v, take(varint()).hex()))
+        end = pos[0]
+        if segwit:
+            for _ in ins:
+                for _ in range(varint()):
+                    take(varint())
+        lock = take(4)
+        if pos[0] != len(b):
+            return None
+        txid = hashlib.sha256(hashlib.sha256(b[:4] + b[start:end] + lock).digest()).digest()[::-1].hex()
+        return {'version': version, 'locktime': int.from_bytes(lock, 'little'), 'ins': ins, 'outs': outs, 'txid': txid}
+    except Exception:
+        return None
+
+
+def key_listing(self, o):
+    """utxos(key_id=k) lists exactly that key's unspent outputs: they sum to the key's balance, whatever kind of key it
+    is (derived, imported public key, address without key material) and whatever account it belongs to."""
+    bad = []
+    kb = parse_kb(o['kb_orm'])
+    for tok in (o.get('ku') or '').split(','):
+        if not tok:
+            continue
+        kid, total, cnt, foreign = (int(x) for x in tok.split(':'))
+        if foreign:
+            bad.append(('keyutxos_other_key', 'utxos(key_id=%d) lists %d unspent outputs of other keys' % (kid, foreign)))
+        elif total != kb.get(kid, 0):
+            bad.append(('keyutxos_ne_keybal', 'key %d has balance %d but utxos(key_id=%d) lists %d outputs summing to %d'
+                        % (kid, kb.get(kid, 0), kid, cnt, total)))
+    return bad
+
+
+def fidelity(self, o, reser):
+    """Transactions whose bytes are fixed (made elsewhere and imported as raw bytes / object / dict; fully signed when
+    stored): once stored, the object reloaded by a second Wallet serialises to those bytes and carries the version,
+    locktime, sequences and amounts those bytes encode (read by parse_raw, not by the library)."""
+    bad = []
+    for tok in (o.get('fixed') or '').split(','):
+        if not tok:
+            continue
+        txid, raw = tok.split('~')
+        p = parse_raw(raw)
+        if p is None:
+            bad.append(('fixed_bytes_unparsable', 'the signed bytes of transaction %s do not parse as a transaction'
+                        % txid[:12]))
+            continue
+        # (the offline provider of the test network answers a broadcast with the hash of ALL bytes, which send() adopts)
+        import hashlib
+        sent_as = hashlib.sha256(hashlib.sha256(bytes.fromhex(raw)).digest()).digest()[::-1].hex()
+        v1 = parse_raw('01000000' + raw[8:])
+        if txid not in (p['txid'], sent_as) and p['version'] != 1 and v1 is not None and txid == v1['txid']:
+            # class predicate, from the case alone: the id in use is the id of the same bytes with the version field 1
+            bad.append((KNOWN_STALE_TXID, 'transaction %s (version %d) is held by the wallet under the id of its '
+                        'version-1 serialisation; the id of its bytes is %s' % (txid[:12], p['version'], p['txid'][:12])))
+            continue
+        if txid not in (p['txid'], sent_as):
+            bad.append(('txid_not_of_bytes', 'transaction %s: the id the wallet uses is not the id of its bytes (%s)'
+                        % (txid[:12], p['txid'][:12])))
+            continue
+        if txid not in reser:
+            continue
+        r = reser[txid]
+        if r[1] != raw:
+            bad.append(('stored_reserialises_differently', 'transaction %s (version %d, locktime %d), stored and reloaded '
+                        'by a second Wallet object, serialises to %s... instead of %s...'
+                        % (txid[:12], p['version'], p['locktime'], r[1][:16], raw[:16])))
+        if len(r) >= 7:
+            for name, got, want in (('version', r[3], str(p['version'])), ('locktime', r[4], str(p['locktime'])),
+                                    ('sequences', r[5], '/'.join(str(i[2]) for i in p['ins'])),
+                                    ('amounts', r[6], '/'.join(str(v[0]) for v in p['outs']))):
+                if got != want:
+                    bad.append(('reload_field_differs:' + name, 'transaction %s reloads with %s %s, its bytes say %s'
+                                % (txid[:12], name, got[:40], want[:40])))
+    return bad
 
 
 def durable(self, o):
@@ -755,6 +974,8 @@ def per_account(self, o, ut, spent_now):
 
 
 Oracle.per_account = per_account
+Oracle.key_listing = key_listing
+Oracle.fidelity = fidelity
 Oracle.durable = durable
 Oracle.untouched = untouched
 
@@ -773,7 +994,7 @@ CMP_FIELDS = ('kbpre', 'utxos_pre', 'txs_pre', 'pa_pre', 'bal', 'utxos', 'kb', '
 # failure classes that a cross-account output explains (the per-account sums and what follows from them); the
 # clauses about spent outputs, reload and the second wallet object stay as they are
 CROSS_EXPLAINS = ('acct_', 'keysum_ne_unspent', 'keybal_ne_unspent', 'balance_ne_unspent', 'default_ne_named_account',
-                  'model_differs:', 'select_inadmissible')
+                  'model_differs:', 'select_inadmissible', 'keyutxos_')
 
 
 def judge(r, mout):
@@ -989,7 +1210,8 @@ def main(tier, seed, replay=None):
         # known); without the entry they would be reported as violations on every run
         cross = any(e.get('status') == 'known' and e.get('class') == KNOWN_CROSS for e in load_known(PROP))
         hs = gen_histories(rng, tier if proof_ok else 'thorough', cross=cross,
-                           shared_delete=known_status(KNOWN_SHARED_DELETE) in ('known', 'fixed'))
+                           shared_delete=known_status(KNOWN_SHARED_DELETE) in ('known', 'fixed'),
+                           stale=known_status(KNOWN_STALE_TXID) == 'known')
 
     known = load_known(PROP)
     failing_input_found = False
